@@ -54,7 +54,7 @@ func c07World(tp *Tape, env *Env) (*Plan, *Violation) {
 	g.ensureYieldingCycles(prog)
 	layout := Layout{Indent: "    ", FinalNL: true}
 	w := World{Readers: []ReaderSpec{{Text: renderNodes(prog.Nodes, layout, 0)}}}
-	w.Host = HostSpec{Storer: []string{"rec", "mem", "default"}[tp.Pick([]int{4, 4, 1}, "storer")], Probes: true, Seed: "s1", Handlers: cfg.Handlers}
+	w.Host = HostSpec{Storer: []string{"rec", "mem", "default"}[tp.Pick([]int{4, 4, 1}, "storer")], Probes: true, Seed: "s1", Handlers: cfg.Handlers, Overrides: tp.Chance(10, "hostoverrides")}
 	if len(cfg.Handlers) > 0 {
 		w.Host.Scheds = []Sched{{Immediate: tp.Bool("immediate")}}
 	}
